@@ -50,7 +50,7 @@ def _shrunk(prog, how, pol, cs, oracle):
 
 
 def plan(tier, seed, build, scale):
-    n = int((1800 if tier == "quick" else 24000) * scale)
+    n = int((1800 if tier == "quick" else 80000) * scale)
     per = max(1, n // (10 if tier == "quick" else 40))
     units = []
     a = 0
